@@ -76,7 +76,18 @@ func TestC03(t *testing.T) {
 		wo.FeeCoin = true
 		wo.RandomPrices = sim.U(t, "randomPrices", 3) == 0
 		wo.MinStakePd = 4 // leaves blocks that are neither payout nor order-expiry blocks
-		h := newHistory(t, wo, sim.GeneralProfile(), sim.BlockOpts{MaxTxs: 6, Absences: false, Evidence: false, TimeJumps: false})
+		// the probes come from the history's generator: rotate its weights so that every group of
+		// transaction types (staking incl. waitlist/move, pools and orders, coins, votes) is probed densely
+		prof := sim.GeneralProfile()
+		switch sim.U(t, "profile", 5) {
+		case 0:
+			prof = stakingProfile()
+		case 1:
+			prof = swapProfile()
+		case 2:
+			prof = coinProfile()
+		}
+		h := newHistory(t, wo, prof, sim.BlockOpts{MaxTxs: 6, Absences: false, Evidence: false, TimeJumps: false})
 		warm := sim.U(t, "warmBlocks", 7)
 		for i := 0; i < warm; i++ {
 			if !h.R.Block(t) {
@@ -203,7 +214,15 @@ func c03Probe(t *rapid.T, h *history, m *sim.TxMeta) {
 		violation(t, "failed-tx-fee-not-conserved", h.R, "%v", mm)
 	}
 	if fee.Sign() == 0 && len(diff) != 0 {
-		violation(t, "failed-tx-side-effect", h.R, "no fee was charged but state changed: %v", diff)
+		// A fee that rounds down to zero units of the gas coin (a few pip of base value sold to a
+		// bancor reserve) still moves those pip from the reserve to the reward pool: that is the
+		// conversion the property allows (every changed field was checked against the failure-fee
+		// set above; value is conserved). An earlier version of this check called it a violation -
+		// a false alarm of the check, not a finding. It is only counted.
+		sim.S.Label("C03/zero-unit-fee-with-dust-conversion")
+		if !usedReserve && !usedPool {
+			violation(t, "failed-tx-side-effect", h.R, "no fee was charged and nothing was converted, but state changed: %v", diff)
+		}
 	}
 	kind := "base"
 	if usedPool {
